@@ -92,7 +92,7 @@ func flattenString(t *ir.Term) []string {
 }
 
 func c17(c *Ctx) {
-	c.R.Explanation = "C17 decided on the SSA of /repo. R-paths = the values stored into HwMonFanConfig.{RpmInputPath,PwmPath,PwmEnablePath} normalise (through path.Join / fmt.Sprintf / Itoa / +) to SysfsPath/fan<RpmChannel>_input, SysfsPath/pwm<PwmChannel>, SysfsPath/pwm<PwmChannel>_enable of the same config object, and every I/O call of every HwMonFan method uses exactly the designated path field (GetRpm: RpmInputPath; GetPwm/SetPwm: PwmPath; Get/SetPwmEnabled: PwmEnablePath). R-match = in the fan binding function a candidate device is accepted (its sysfs path copied into the entry) only on paths that crossed: platform regexp matched, (entry.Index <= 0 or candidate.Index == entry.Index) and (entry.RpmChannel <= 0 or candidate.RpmChannel == entry.RpmChannel); the copied values come from that candidate. R-default = the entry's PwmChannel is overwritten only under PwmChannel == 0 and with the candidate's channel; the paths are (re)computed after the acceptance on every path to the nil return. R-fail = every return that avoids the acceptance carries a non-nil error. R-bind-sensor = in start-up sensor binding, a hwmon sensor object is created only on paths (tracked through the boolean 'found' flag) on which TempInput was stored, that store being dominated by platform-matched and by the comma-ok of the index lookup; otherwise an error is returned. R-nocrash = no map-lookup dereference with ignored ok, non-comma-ok type assertion or panic in the binding code. Not decided: regexp semantics; enumeration-order independence beyond 'first match among chips matching the pattern'."
+	c.R.Explanation = "C17 decided on the SSA of /repo. R-paths = the values stored into HwMonFanConfig.{RpmInputPath,PwmPath,PwmEnablePath} normalise (through path.Join / fmt.Sprintf / Itoa / +) to SysfsPath/fan<RpmChannel>_input, SysfsPath/pwm<PwmChannel>, SysfsPath/pwm<PwmChannel>_enable of the same config object, and every I/O call of every HwMonFan method uses exactly the designated path field (GetRpm: RpmInputPath; GetPwm/SetPwm: PwmPath; Get/SetPwmEnabled: PwmEnablePath). R-match = in the fan binding function a candidate device is accepted (its sysfs path copied into the entry) only on paths that crossed: platform regexp matched, (entry.Index <= 0 or candidate.Index == entry.Index) and (entry.RpmChannel <= 0 or candidate.RpmChannel == entry.RpmChannel); the copied values come from that candidate. R-default = the entry's PwmChannel is overwritten only under PwmChannel == 0 and with the candidate's channel; the paths are (re)computed after the acceptance on every path to the nil return. R-fail = every return that avoids the acceptance carries a non-nil error. R-bind-sensor = in start-up sensor binding, a hwmon sensor object is created only on paths (tracked through the boolean 'found' flag) on which TempInput was stored, that store being dominated by platform-matched and by the comma-ok of the index lookup; otherwise an error is returned. R-position = the discovery function keys the per-chip sensor map, and fills HwmonSensor.Index, with a counter incremented once per accepted temperature input (position), not with a number taken from the device name. R-nocrash = no map-lookup dereference with ignored ok, non-comma-ok type assertion or panic in the binding code. Not decided: regexp semantics; enumeration-order independence beyond 'first match among chips matching the pattern'."
 	tb := ir.NewTB(c.P.IsRepoFunc, c.P.FuncKey)
 
 	// ---- R-paths: construction ------------------------------------------------------
@@ -502,6 +502,107 @@ func c17(c *Ctx) {
 		c.R.Undecided("R-bind-sensor", "none", "InitializeObjects", "-", "no NewSensor call in the start-up code (anchor unresolved)")
 	}
 	c.R.Require("R-bind-sensor", 2)
+
+	// ---- R-position: a sensor's index is its position among the chip's temperature inputs -----
+	// The discovery function that builds map[int]*HwmonSensor keys the map, and fills HwmonSensor.Index,
+	// with a counter that starts at a constant and is incremented by one per accepted input - not with a
+	// number taken from the device (file name, feature number).
+	npos := 0
+	for _, fn := range c.P.Funcs {
+		if load_FuncPkgPath(fn) != PkgHwmon || fn.Signature.Results().Len() != 1 || len(fn.Blocks) == 0 {
+			continue
+		}
+		mt, ok := fn.Signature.Results().At(0).Type().Underlying().(*types.Map)
+		if !ok {
+			continue
+		}
+		pt, ok := mt.Elem().Underlying().(*types.Pointer)
+		if !ok {
+			continue
+		}
+		if n := ir.NamedOf(pt.Elem()); n == nil || n.Obj().Name() != "HwmonSensor" {
+			continue
+		}
+		fk := c.FK(fn)
+		isCounter := func(v ssa.Value) bool {
+			v = ir.Resolve(v)
+			bo, ok := v.(*ssa.BinOp)
+			if !ok || bo.Op != token.ADD {
+				return false
+			}
+			if k, isConst := ir.ConstInt(bo.Y); !isConst || k != 1 {
+				return false
+			}
+			phi, ok := ir.Resolve(bo.X).(*ssa.Phi)
+			if !ok {
+				return false
+			}
+			// every definition merged by the phi is a constant, the phi itself, the incremented counter, or another phi of those
+			seen := map[ssa.Value]bool{}
+			var okPhi func(p *ssa.Phi, depth int) bool
+			okPhi = func(p *ssa.Phi, depth int) bool {
+				if seen[p] || depth > 6 {
+					return true
+				}
+				seen[p] = true
+				for _, e := range p.Edges {
+					e = ir.Resolve(e)
+					if _, isConst := ir.ConstInt(e); isConst {
+						continue
+					}
+					if e == ssa.Value(bo) || e == ssa.Value(p) {
+						continue
+					}
+					if q, isPhi := e.(*ssa.Phi); isPhi {
+						if !okPhi(q, depth+1) {
+							return false
+						}
+						continue
+					}
+					if b2, isBin := e.(*ssa.BinOp); isBin && b2.Op == token.ADD {
+						if k, isConst := ir.ConstInt(b2.Y); isConst && k == 1 {
+							if q, isPhi := ir.Resolve(b2.X).(*ssa.Phi); isPhi && okPhi(q, depth+1) {
+								continue
+							}
+						}
+					}
+					return false
+				}
+				return true
+			}
+			return okPhi(phi, 0)
+		}
+		Instrs(fn, func(ins ssa.Instruction) {
+			var v ssa.Value
+			what := ""
+			switch x := ins.(type) {
+			case *ssa.MapUpdate:
+				if ir.Root(x.Map) != nil && types.Identical(x.Map.Type().Underlying(), mt) {
+					v, what = x.Key, "map key"
+				}
+			case *ssa.Store:
+				if fa, ok := x.Addr.(*ssa.FieldAddr); ok {
+					if o, n, _ := ir.FieldName(fa); o != nil && o.Obj().Name() == "HwmonSensor" && n == "Index" {
+						v, what = x.Val, "HwmonSensor.Index"
+					}
+				}
+			}
+			if v == nil {
+				return
+			}
+			npos++
+			key := fk + "|" + what
+			if isCounter(v) {
+				c.R.Ok("R-position", key, fk, c.P.Pos(ins.Pos()), what+" is the running count of accepted temperature inputs (position on the chip)")
+			} else {
+				c.R.Bad("R-position", key, fk, c.P.Pos(ins.Pos()), what+" is not the position counter but "+tb.Of(v, nil).String()+": a configured index then selects a different device than 'the n-th temperature input of the chip' (or none) on chips whose inputs are not numbered 1..n")
+			}
+		})
+	}
+	if npos == 0 {
+		c.R.Undecided("R-position", "none", PkgHwmon, "-", "no discovery function building map[int]*HwmonSensor found (anchor unresolved)")
+	}
+	c.R.Require("R-position", 2)
 
 	// ---- R-nocrash in the binding code ------------------------------------------------------
 	nsite := 0
